@@ -1,7 +1,7 @@
 (* GENERATED on every run by harness/translate/c19.py from
-   src/lenskit/basic/random.py and src/lenskit/stochastic/_ranker.py -- do not edit. *)
+   src/lenskit/basic/random.py, src/lenskit/stochastic/_ranker.py and src/lenskit/random.py -- do not edit. *)
 From Coq Require Import ZArith Bool List.
-From LK Require Import Lib.PyInt.
+From LK Require Import Lib.PyInt Lib.C19Rules.
 Import ListNotations.
 Open Scope Z_scope.
 
@@ -27,6 +27,7 @@ Definition random_len (n : pyv) (config_n : pyv) (len_items : Z) : res outcome :
   then (ret (Take n false))
   else (ret (EmptyList false)))))))).
 Definition random_mask : mask_kind := MAll.
+Definition random_draw : draw_rule := DrawChoiceNoReplace.   (* the only use of the generator *)
 
 Definition softmax_len (n : pyv) (config_n : pyv) (len_valid_items : Z) : res outcome :=
   bind (py_int len_valid_items) (fun N =>
@@ -43,6 +44,7 @@ Definition softmax_len (n : pyv) (config_n : pyv) (len_valid_items : Z) : res ou
   ret (Take n true)))
   else (ret (Take n true)))))))).
 Definition softmax_mask : mask_kind := MNotNan.
+Definition softmax_draw : uniform_rule := DrawUniform01PerEligible.   (* the only use of the generator *)
 Definition softmax_keys : key_rule := KLogUOverW.   (* log(U) / max(weight, tiny), largest first *)
 
 Definition stochastic_len (n : pyv) (config_n : pyv) (len_valid_items : Z) : res outcome :=
@@ -60,6 +62,12 @@ Definition stochastic_len (n : pyv) (config_n : pyv) (len_valid_items : Z) : res
   ret (Take n true)))
   else (ret (Take n true)))))))).
 Definition stochastic_mask : mask_kind := MFinite.
+Definition stochastic_draw : uniform_rule := DrawUniform01PerEligible.   (* the only use of the generator *)
 Definition stochastic_keys : key_rule := KLogUOverW.   (* log(U) / max(weight, tiny), largest first *)
 Definition stochastic_scale : scale_rule := ScaleBeforeTransform.   (* weights = transform(scale * score) *)
 Definition stochastic_transforms : list transform_rule := [TrLinearMinMax; TrSoftmax; TrRawClamp].
+
+Definition seed_digest : digest_rule := DigestMd5XorFold.   (* _bytes_seed = abs(xor-fold of md5(key) as int32 words) *)
+Definition seed_words : list word_rule := [WSkipNone; WSeedSequenceEntropy; WNumpyInt; WInt; WDigestUuidBytes; WDigestUtf8; WDigestBytes; WIntSequence].
+Definition seed_derivation : derive_rule := DeriveChildIfAnonymousElseBaseAndUser.
+Definition seed_specs : list spec_rule := [SpecUserFreshEntropy; SpecSeedUser; SpecFixedGenerator].
